@@ -128,8 +128,12 @@ func (commander *Commander) exec(ctx context.Context, parameters Parameters, scr
 			return nil, nil, errors.Wrap(err, "locking accounts for tx processing")
 		}
 		verifhook.Yield(ctx, "locked")
-		unlock(ctx)
-		verifhook.Yield(ctx, "unlocked")
+		// the accounts stay locked until the log entry is persisted: balances are read from the store,
+		// which only shows persisted entries
+		executionContext.onCompletion(func() {
+			unlock(ctx)
+			verifhook.Yield(ctx, "unlocked")
+		})
 
 		err = m.ResolveBalances(ctx, commander.store)
 		if err != nil {
